@@ -69,7 +69,7 @@ let handle (lines : string list) : unit =
     | [] -> (List.rev acc, []) in
   let (cfgl, trace) = split [] lines in
   let sc = ref None and wc = ref [] and rq = ref [] and vals = ref [] and prm = ref sc_params
-  and explore = ref None and modes = ref false in
+  and explore = ref None and modes = ref false and types = ref false and caps = ref None in
   List.iter (fun l -> match words l with
     | ["rb"; f; c; th; pre] -> sc := Some (int_of_string f, int_of_string c, th <> "0", int_of_string pre)
     | "w" :: xs -> wc := List.map int_of_string xs
@@ -78,9 +78,31 @@ let handle (lines : string list) : unit =
     | "v" :: xs -> vals := !vals @ List.map (fun e -> match String.split_on_char ':' e with
         | [i; c] -> (int_of_string i, int_of_string c) | _ -> failwith "bad value entry") xs
     | ["modes"] -> modes := true
+    | ["types"] -> types := true
+    | "caps" :: ns -> caps := Some ns
     | "params" :: ps -> prm := params_of ps
     | ["explore"; sd; runs] -> explore := Some (int_of_string sd, int_of_string runs)
     | _ -> ()) cfgl;
+  if !types then begin
+    (* the C types the model relies on *)
+    List.iter2 (fun nm (sz, sg) -> Printf.printf "F field %s %s %s\n" nm (string_of_z sz) (string_of_z sg))
+      ["capacity"; "cursor"; "read_cursor"; "flag"; "write_mode"; "read_mode"] ty_fields;
+    List.iter (fun nm -> Printf.printf "F sig %s 1\n" nm) ["read"; "write"; "init"];
+    (* block size is layout (cache-line padding), not modelled: echo what the code has; pointer at offset 0 *)
+    List.iter (fun l -> match words l with
+      | ["F"; "block"; sz; _; _] -> Printf.printf "F block %s %s %s\n" sz (string_of_z (fst ty_block_ptr)) (string_of_z (snd ty_block_ptr))
+      | _ -> ()) trace
+  end else
+  match !caps with
+  | Some ns ->
+    let failed = List.filter_map (fun l -> match words l with
+      | ["F"; "cap"; n; "alloc-failed"] -> Some n | _ -> None) trace in
+    List.iter (fun n ->
+      if List.mem n failed then Printf.printf "F cap %s alloc-failed\n" n
+      else match init_capacity (z_of_string n) with
+        | Some cp -> Printf.printf "F cap %s 0 %s\n" n (string_of_z cp)
+        | None -> Printf.printf "F cap %s %s -1\n" n (string_of_z err_invalid_param)) ns
+  | None ->
   if !modes then
     List.iter (fun f ->
       match get_mode (z_of_int f) with
@@ -104,8 +126,22 @@ let handle (lines : string list) : unit =
          print_endline "F init=0";
          Printf.printf "F cap=%s wmode=%s rmode=%s\n" (string_of_z (cap c)) (string_of_z (wmode_num wm))
            (string_of_z (rmode_num rm));
-         let stp = step sc_params in
-         let (st, ok) = accept_trace stp (init c) cell_id choice_of note_of (none_enabled stp n) trace in
+         (* a reader's first index must name a ring position that has been written (or the cursor position) *)
+         let nwr = List.length s.wc in
+         let bad_start = rm <> ROnce &&
+           List.exists (fun i -> int_of_z (rd_start c (nat_of_int (nwr + i))) < 0) (upto (List.length s.rq)) in
+         if bad_start then print_endline "F badcase" else
+         (* the extracted thread map is a chain of closures (upd / wake_all, the latter evaluating the inner map
+            twice): after every step it is re-tabulated over the scenario's threads, which keeps look-ups O(1)
+            and is extensionally the same function on the thread ids that exist *)
+         let st0 = init c in
+         let flatten (s' : sys) : sys =
+           let a = Array.init n (fun i -> s'.s_thr (nat_of_int i)) in
+           { s' with s_thr = (fun t -> let i = int_of_nat t in if i < n then a.(i) else st0.s_thr t) } in
+         let stp st t ch = match step sc_params st t ch with
+           | Some (s', l) -> Some (flatten s', l)
+           | None -> None in
+         let (st, ok) = accept_trace stp st0 cell_id choice_of note_of (none_enabled stp n) trace in
          if ok then begin
            Printf.printf "F cursor=%s rcursor=%s begun=%s delivered=%s\n" (string_of_z (s_cursor st))
              (string_of_z (s_rc st)) (string_of_z (s_begun st)) (string_of_z (s_deliv st));
